@@ -334,6 +334,9 @@ def find_dict_literal(cls, expr, depth=0, fn=None):
             if not any(x is e for x in found):
                 found.append(e)
             return
+        if isinstance(e, (ast.Name, ast.Attribute)) and fn is not None and d < 8:
+            # a local (or a build-once cache field) inside a wrapper: dict(<local>), where the local was left by an expanded helper
+            return walk_ret(fn, e, d + 1, seen)
         if isinstance(e, ast.Call):
             cn = call_name(e) or ''
             if cn in WRAPPERS and len(e.args) == 1 and not e.keywords:
